@@ -171,8 +171,12 @@ def run_truth(case, ctx):
         back = ctx.sut(strapdown.Integrator(tr.iloc[0]).integrate, inc)
         rts.append(c01.table_distance(back, tr))
     rts = np.array(rts)
-    fl = np.array([2e-4, 2e-5, 2e-8])
     for k in range(len(LADDER) - 1):
+        # rounding floor of the round trip: the synthesiser's acceleration noise 128 ulp(6.4e6)/h^2 (see ASSUMPTIONS) integrates to a
+        # velocity random walk ~ a_noise sqrt(h T) and a position error ~ that x T (seed 10: 9e-4 m at 12.5 ms, 250 m/s, 20 s)
+        a_noise = 128 * np.spacing(6.4e6) / LADDER[k + 1] ** 2
+        v_noise = 0.2 * a_noise * np.sqrt(LADDER[k + 1] * T)
+        fl = np.array([2e-4 + 0.5 * v_noise * T, 2e-5 + v_noise, 2e-8 + 1e-3 * v_noise])
         for g in range(3):
             ctx.stat(f'roundtrip_halving_{c01.NAMES[g]}', rts[k + 1, g] / (0.75 * rts[k, g] + fl[g]))
             ctx.check(rts[k + 1, g] <= 0.75 * rts[k, g] + fl[g], f'roundtrip_no_convergence:{c01.NAMES[g]}',
